@@ -145,11 +145,11 @@ Proof.
 Qed.
 
 Theorem run_trace_transparent n : forall mc s inp evs, wf s ->
-  defined_run (Isa.run n (arch_of s) inp evs) -> mc = 0 -> s_running s = true ->
+  defined_run (Isa.run n (arch_of s) inp evs) -> s_running s = true ->
   run_traced n mc s inp evs = SimModel.run n mc s inp evs.
 Proof.
-  induction n as [|n IH]; intros mc s inp evs Hwf Hdef -> Hrun; [reflexivity|].
-  cbn [run_traced SimModel.run]. destruct (negb (guard 0 s)) eqn:G; [reflexivity|].
+  induction n as [|n IH]; intros mc s inp evs Hwf Hdef Hrun; [reflexivity|].
+  cbn [run_traced SimModel.run]. destruct (negb (guard mc s)) eqn:G; [reflexivity|].
   cbn [Isa.run] in Hdef.
   destruct (Isa.step (arch_of s) inp) as [[[a1 inp1] ev]|u] eqn:Es.
   - rewrite (trace_transparent s inp a1 inp1 ev Hwf Es).
